@@ -3235,6 +3235,8 @@ impl Zeroconf {
                 if qtype == RRType::ANY && msg.num_authorities() > 0 {
                     if let Some(probe) = dns_registry.probing.get_mut(q_name) {
                         probe.tiebreaking(&msg, q_name);
+                        // Wake up for the next probe, which is postponed if we lost.
+                        self.timers.push(Reverse(probe.next_send));
                     }
                 }
 
